@@ -464,6 +464,11 @@ fn reader(sh: Arc<Shared>, r: usize, mut rng: Rng, max_q: usize, stats: mpsc::Se
     let mut acc = ReaderAcc { max_ms: 0.0, panics: vec![], nqueries: 0 };
     let mut per_version = (usize::MAX, 0usize);
     let mut first = true;
+    // a request that came back Cancelled is asked again on the next snapshot - what an LSP client does with
+    // ContentModified / RequestCancelled; whatever the cancelled attempt left behind on this thread must not show
+    let mut retry: Option<usize> = None;
+    // menu entries that search the workspace (many classifications per call: the longest-running, most often cut short)
+    let searches: Vec<usize> = sh.menu.iter().enumerate().filter(|(_, q)| matches!(q.kind, "references" | "highlight_related" | "rename")).map(|(i, _)| i).collect();
     while !sh.stop.load(SeqCst) {
         delay(&mut rng, 300);
         let (snap, ver) = {
@@ -515,8 +520,15 @@ fn reader(sh: Arc<Shared>, r: usize, mut rng: Rng, max_q: usize, stats: mpsc::Se
             let nq = 1 + rng.below(max_q);
             for _ in 0..nq {
                 delay(&mut rng, 100);
-                let qi = rng.below(sh.menu.len());
-                one_query(&sh, r, &snap, ver, qi, false, &mut acc);
+                let qi = match retry.take() {
+                    Some(q) => q,
+                    None if !searches.is_empty() && rng.below(3) == 0 => searches[rng.below(searches.len())],
+                    None => rng.below(sh.menu.len()),
+                };
+                if one_query(&sh, r, &snap, ver, qi, false, &mut acc) == Res::Cancelled {
+                    retry = Some(qi);
+                    break;
+                }
             }
         }
         delay(&mut rng, 100);
@@ -551,6 +563,8 @@ fn writer(sh: Arc<Shared>, plan: Arc<RunPlan>, mut rng: Rng, out: mpsc::Sender<(
                 match rng.below(3) {
                     0 => {}
                     1 => std::thread::sleep(Duration::from_micros(rng.next() % 200)),
+                    // (a heavy run: the change arrives anywhere inside queries that take hundreds of milliseconds)
+                    _ if plan.nf > 2000 => std::thread::sleep(Duration::from_micros(rng.next() % 400_000)),
                     _ => std::thread::sleep(Duration::from_micros(rng.next() % 2000)),
                 }
             }
@@ -603,7 +617,10 @@ fn plan_run(seed: u64, run: u64, nf_max: usize, max_n: usize, max_k: usize) -> (
     let mut rng = Rng::new(seed.wrapping_mul(1_000_003).wrapping_add(run));
     let n = 1 + rng.below(max_n);
     let k = 1 + rng.below(max_k);
-    let nf = [nf_max / 8, nf_max / 3, nf_max, nf_max][rng.below(4)].max(4);
+    // one run in forty is heavy: chains twenty times as long, so that single queries (the inference of one function walks
+    // the whole chain) take a few hundred milliseconds and a change arrives in the middle of them - "long queries"
+    let heavy = rng.below(40) == 0;
+    let nf = if heavy { nf_max * 20 } else { [nf_max / 8, nf_max / 3, nf_max, nf_max][rng.below(4)].max(4) };
     let salt = rng.next() % 1000;
     let touches = (0..k)
         .map(|_| {
